@@ -10,6 +10,7 @@ import (
 	"github.com/vektah/gqlparser/v2/ast"
 
 	"github.com/99designs/gqlgen/graphql"
+	"github.com/99designs/gqlgen/graphql/handler/extension"
 	"github.com/99designs/gqlgen/zzsym"
 )
 
@@ -19,12 +20,15 @@ type c07Req struct {
 	transport int // 0 GET, 1 POST json, 2 POST application/graphql, 3 POST form
 	doc       int // index into hDocs
 	accept    int // index into hAccepts
+	ext       int // POST json only: 0 no extensions, 1 persistedQuery with the text's own hash (registers), 2 with the hash of hDocs[0]'s text
 }
 
 // a corpus mixing transports, valid and invalid documents, operation names and Accept headers
 var c07Corpus = []c07Req{
-	{0, 0, 0}, {0, 1, 2}, {0, 5, 1}, {0, 7, 3}, {1, 0, 1}, {1, 2, 2}, {1, 4, 0}, {1, 8, 4},
-	{1, 1, 6}, {2, 0, 2}, {2, 7, 1}, {3, 0, 5}, {3, 9, 0},
+	{0, 0, 0, 0}, {0, 1, 2, 0}, {0, 5, 1, 0}, {0, 7, 3, 0}, {1, 0, 1, 0}, {1, 2, 2, 0}, {1, 4, 0, 0}, {1, 8, 4, 0},
+	{1, 1, 6, 0}, {2, 0, 2, 0}, {2, 7, 1, 0}, {3, 0, 5, 0}, {3, 9, 0, 0},
+	// automatic persisted queries: a registration, and a text sent with another text's hash (must be refused, registered or not)
+	{1, 0, 1, 1}, {1, 5, 1, 2}, {1, 2, 0, 2},
 }
 
 func c07Build(q c07Req) *http.Request {
@@ -46,7 +50,14 @@ func c07Build(q c07Req) *http.Request {
 	case 1:
 		r.Method = "POST"
 		r.Header.Set("Content-Type", "application/json")
-		r.Body = io.NopCloser(strings.NewReader(hJSONBody(d)))
+		body := hJSONBody(d)
+		switch q.ext {
+		case 1:
+			body = body[:len(body)-1] + `,"extensions":` + c15Ext(c15Sum(d.query)) + `}`
+		case 2:
+			body = body[:len(body)-1] + `,"extensions":` + c15Ext(c15Sum(hDocs[0].query)) + `}`
+		}
+		r.Body = io.NopCloser(strings.NewReader(body))
 	case 2:
 		r.Method = "POST"
 		r.Header.Set("Content-Type", "application/graphql")
@@ -76,6 +87,7 @@ func c07Render(w *hWriter, es *hES) string {
 func Harness_C07_serverHistory() {
 	rh := hRespHdrs[zzsym.Choice("resphdr", 2)].hdr
 	cache := zzsym.Choice("cache", 2) == 1
+	apq := zzsym.Choice("apq", 2) == 1 // persisted-query registrations are the one permitted memory: no corpus request depends on them
 	mkServer := func(es *hES) *Server {
 		var hdr map[string][]string
 		if rh != nil {
@@ -87,6 +99,9 @@ func Harness_C07_serverHistory() {
 		srv := hServer(es, hdr)
 		if cache {
 			srv.SetQueryCache(graphql.MapCache[*ast.QueryDocument]{})
+		}
+		if apq {
+			srv.Use(extension.AutomaticPersistedQuery{Cache: &c15Store{m: map[string]string{}}})
 		}
 		return srv
 	}
